@@ -9,6 +9,7 @@ model   = Model/C06_Model.v evaluated in Coq on the exact per-example losses /
 Least-squares model  loss_i = (w.x_i + b - y_i)^2, L2 regulariser 1/4*|params|^2;
 all data are multiples of 1/4 so sums are exact in float32 (only the final
 divisions round)."""
+import json
 import math
 from fractions import Fraction
 
@@ -58,8 +59,16 @@ ALPHA = [0.5, 0.25, 0.25]
 _API = {}
 
 
-def _q(v):   # quarters -> Fraction
-  return Fraction(int(v), 4)
+def _q(v, case=None):   # quarters -> Fraction (data / bias additionally scaled by 2^scale in the magnitude-sweep cases)
+  return Fraction(int(v), 4) * (Fraction(2) ** (case or {}).get('scale', 0))
+
+
+def _u(case):
+  """Unit of the x / y / bias integers of a case: 1/4, times 2^scale (an exact power of two) in the sweep cases."""
+  return 0.25 * 2.0 ** case.get('scale', 0)
+
+
+_TOLSCALE = [1.0]
 
 
 # --------------------------------------------------------------------------
@@ -129,7 +138,7 @@ def _hyp_case(rng, order):
   return c
 
 
-ALGO_PATTERNS = ['empty1', 'empty2', 'empty-then-empty', 'mixed', 'normal', 'no-clients', 'uneven']
+ALGO_PATTERNS = ['empty1', 'empty2', 'empty-then-empty', 'mixed', 'normal', 'no-clients', 'uneven', 'uneven2', 'tie']
 ALGO_PATTERNS_MORE = ['empty3', 'single', 'all', 'mixed-tail', 'normal-then-empty', 'single-then-all', 'normal-then-no-clients']
 
 
@@ -143,15 +152,38 @@ def _algo_case(rng, pattern, reg):
   r1 = {'empty1': [[]], 'empty2': [[], []], 'empty-then-empty': [[]], 'mixed': [[], a, []], 'normal': [a, b],
         'empty3': [[], [], []], 'single': [cc], 'all': [a, b, cc], 'mixed-tail': [a, b, []],
         'normal-then-empty': [b, a], 'single-then-all': [b], 'no-clients': [], 'normal-then-no-clients': [a, cc],
-        'uneven': [a, [3], [4]]}[pattern]   # 1-row clients: shuffle_repeat_batch(3) repeats the row, one step, weight 1 vs 3
+        'uneven': [a, [3], [4]], 'uneven2': [[3], a, [4]], 'tie': [a, b]}[pattern]   # 1-row clients: shuffle_repeat_batch(3) repeats the row, one step, weight 1 vs 3
   r2 = {'empty-then-empty': [[], []], 'mixed': [b, [], cc], 'empty3': [a], 'all': [cc, [], a], 'normal-then-empty': [[], []],
-        'single-then-all': [a, b, cc], 'normal-then-no-clients': [], 'uneven': [[5], cc, [4]]}.get(pattern, [b, cc])
+        'single-then-all': [a, b, cc], 'normal-then-no-clients': [], 'uneven': [[5], cc, [4]],
+        'uneven2': [[5], [4], cc]}.get(pattern, [b, cc])
+  if pattern == 'tie':     # identical cluster params: equal losses, the first cluster must win (argmin tie-break)
+    c['w2'], c['b2'] = list(c['w']), c['b']
   c.update({'kind': 'algo', 'pattern': pattern, 'rounds': [r1, r2]})
   del c['geos'], c['split']
   return c
 
 
+FLAG_SETTINGS = [{'JAX_ENABLE_X64': '1'}]
+
+
+def _run_flags(case):
+  import os
+  import subprocess
+  import sys
+  env = dict(os.environ)
+  env.update(case['env'])
+  p = subprocess.run([sys.executable, os.path.join(os.path.dirname(os.path.abspath(__file__)), 'c14c06_flagworker.py'),
+                      'c06', 'quick', str(case['seed']), str(case['limit'])], env=env, capture_output=True, text=True, timeout=1500)
+  for line in p.stdout.split('\n'):
+    if line.startswith('FLAGWORKER '):
+      return json.loads(line[len('FLAGWORKER '):])
+  return {'ran': 0, 'violations': [['flag-worker-failed', (p.stderr or p.stdout)[-400:], None]]}
+
+
 def generate(tier, rng):
+  if tier == 'thorough':
+    for env in FLAG_SETTINGS:      # the harness's own quick cases in a fresh process under a non-default global flag
+      yield {'kind': 'flags', 'env': env, 'seed': rng.randrange(1000), 'limit': 14}
   if tier == 'quick':
     ns = [0, 1, 2, 3, 5, 8, 9, 12]
     reps = 4
@@ -177,12 +209,28 @@ def generate(tier, rng):
         yield _algo_case(rng, pattern, reg)
     if tier != 'quick':
       yield _algo_case(rng, rng.choice(['normal', 'uneven', 'mixed']), 'cw')
+      for backend in ('debug', 'pmap'):     # every algorithm under the other for_each_client backends
+        c = _algo_case(rng, ['uneven2', 'mixed', 'all', 'empty2'][rep % 4], rep % 2 == 1)
+        c['backend'] = backend
+        yield c
   for rep in range(reps):
     for n in ns:
       for reg in (False, True):
         yield _case(rng, n, reg)
       if (rep + n) % 3 == 0:
         yield _case(rng, n, 'cw')            # l2 with center_params and params_weights
+  # magnitude sweep: data and bias scaled by an exact power of two (all sums stay exact in float32)
+  for i, k in enumerate([-20, -8, 8, 20] if tier == 'quick' else [-40, -20, -12, -8, -3, 3, 8, 12, 20, 40, 50, -50]):
+    c = _case(rng, rng.choice([3, 5, 8, 9]), False if k < 0 else i % 2 == 1)
+    c['scale'] = k
+    yield c
+  # non-finite losses on REAL rows: the padded evaluation must give the same non-finite answer as the unpadded one
+  for i in range(6 if tier == 'quick' else 30):
+    c = _case(rng, rng.choice([2, 3, 5, 8, 9]), i % 2 == 1)
+    for j in rng.sample(range(len(c['y'])), rng.choice([1, 1, 2])):
+      c['y'][j] = rng.choice(['nan', 'inf', '-inf', 'nan'])
+    c['nonfinite'] = True
+    yield c
   for i, backend in enumerate(['debug', 'pmap'] * (1 if tier == 'quick' else 4)):
     c = _case(rng, [5, 0, 8, 3, 1, 12, 2, 9][i], i % 4 >= 2)
     c['backend'] = backend                    # the for_each_client helpers built under another backend
@@ -255,12 +303,12 @@ def _rows(case, cells):
   mask = np.zeros((n,), np.bool_)
   for k, c in enumerate(cells):
     if isinstance(c, list):
-      x[k] = [c[0] / 4, c[1] / 4]
-      y[k] = c[2] / 4
+      x[k] = [c[0] * _u(case), c[1] * _u(case)]
+      y[k] = c[2] * _u(case)
       d[k] = c[3]
     else:
-      x[k] = [case['x'][c][0] / 4, case['x'][c][1] / 4]
-      y[k] = case['y'][c] / 4
+      x[k] = [case['x'][c][0] * _u(case), case['x'][c][1] * _u(case)]
+      y[k] = float(case['y'][c]) if isinstance(case['y'][c], str) else case['y'][c] * _u(case)
       d[k] = case['dom'][c]
       idx[k] = c
       mask[k] = True
@@ -341,11 +389,11 @@ def _params(case, which=1, as_numpy=False):
   import jax.numpy as jnp
   w, b = (case['w'], case['b']) if which == 1 else (case['w2'], case['b2'])
   if as_numpy:
-    return {'w': np.array([w[0] / 4, w[1] / 4], np.float32), 'b': np.float32(b / 4)}
-  return {'w': jnp.array([w[0] / 4, w[1] / 4], jnp.float32), 'b': jnp.array(b / 4, jnp.float32)}
+    return {'w': np.array([w[0] / 4, w[1] / 4], np.float32), 'b': np.float32(b * _u(case))}
+  return {'w': jnp.array([w[0] / 4, w[1] / 4], jnp.float32), 'b': jnp.array(b * _u(case), jnp.float32)}
 
 
-CIDS = [b'c', 'c', 0, b'', '']
+CIDS = [b'c', 'c', 0, b'', '', None, -1, b'__mask__']
 
 
 def _clients(items, form):
@@ -368,7 +416,8 @@ def _unchanged(tree, snap):
     now = [np.array(x) for x in jax.tree_util.tree_leaves(tree)]
   except RuntimeError:      # a deleted (donated) buffer
     return False
-  return len(now) == len(snap) and all(a.dtype == b.dtype and a.shape == b.shape and np.array_equal(a, b) for a, b in zip(now, snap))
+  return len(now) == len(snap) and all(a.dtype == b.dtype and a.shape == b.shape and np.array_equal(a, b, equal_nan=a.dtype.kind == 'f')
+                                   for a, b in zip(now, snap))
 
 
 ALGO_GEOS = [(1, 1), (4, 2), (8, 3)]
@@ -376,10 +425,17 @@ LR, MOM, SLR, DLR = 0.125, 0.5, 1.0, 0.0625
 ATOL = 1e-4
 
 
-def _algo(kind, reg, geo):
-  key = (kind, reg, geo)
+def _algo(kind, reg, geo, backend='jit'):
+  key = (kind, reg, geo, backend)
   if key in _API:
     return _API[key]
+  from fedjax.core import for_each_client
+  with for_each_client.for_each_client_backend(None if backend == 'jit' else backend):
+    _API[key] = _build_algo(kind, reg, geo)
+  return _API[key]
+
+
+def _build_algo(kind, reg, geo):
   from fedjax.core import optimizers, client_datasets
   from fedjax.algorithms import mime, mime_lite, agnostic_fed_avg
   api = _api(reg)
@@ -399,7 +455,6 @@ def _algo(kind, reg, geo):
         per_example_loss=api['pel'], client_optimizer=optimizers.sgd(LR), server_optimizer=optimizers.sgd(1.0),
         client_batch_hparams=cb, domain_batch_hparams=pb, init_domain_weights=ALPHA, domain_learning_rate=DLR,
         domain_algorithm='eg', regularizer=api['regf'])
-  _API[key] = alg
   return alg
 
 
@@ -416,8 +471,8 @@ def _run_algo(case):
   obs = {'algos': {}, 'caller_owned': []}
   for kind in ('mime', 'mime_lite', 'agnostic', 'hypc'):
     per_geo = []
-    for gj, geo in enumerate(ALGO_GEOS):
-      alg = _algo(kind, case['reg'], geo)
+    for gj, geo in enumerate(ALGO_GEOS if 'backend' not in case else [(4, 2)]):
+      alg = _algo(kind, case['reg'], geo, case.get('backend', 'jit'))
       init_arg = [_params(case), _params(case, 2)] if kind == 'hypc' else _params(case)
       state = alg.init(init_arg)
       init_snap = _snapshot(state)
@@ -425,6 +480,8 @@ def _run_algo(case):
       kept = []
       for cohort in case['rounds']:
         ids = [(b'c%d' % i) if gj % 2 == 0 else ('c%d' % i) for i in range(len(cohort))]     # bytes / str client ids
+        if gj == 2 or 'backend' in case:
+          ids = [b'c02', b'c00', b'c10', b'c01'][:len(cohort)]                              # NOT in sorted order
         clients = [(cid, _dataset(case, rows), jax.random.PRNGKey(i)) for i, (cid, rows) in enumerate(zip(ids, cohort))]
         if gj == 1:
           clients = tuple(clients)                                                          # a tuple instead of a list
@@ -461,8 +518,8 @@ def _run_algo(case):
 
 def _closed_at(case, p, rows):
   """Per-example losses / gradients of the given rows at params p = [w1, w2, b]; r and grad r."""
-  X = np.array([case['x'][i] for i in rows], np.float64).reshape(-1, 2) / 4
-  Y = np.array([case['y'][i] for i in rows], np.float64) / 4
+  X = np.array([case['x'][i] for i in rows], np.float64).reshape(-1, 2) * _u(case)
+  Y = np.array([_yq(case['y'][i], _u(case)) for i in rows], np.float64)
   w, b = np.array(p[:2], np.float64), float(p[2])
   e = X @ w + b - Y
   G = np.stack([2 * e * X[:, 0], 2 * e * X[:, 1], 2 * e], axis=1) if len(rows) else np.zeros((0, 3))
@@ -521,10 +578,10 @@ def _oracle_algo(case, obs):
         for k, p in enumerate(ps):
           loss, G, r, dr = _closed_at(case, p, rows)
           ls.append(((loss.mean() if rows else 0.0) + r, (G.mean(axis=0) + dr) if rows else None))
-        if abs(ls[0][0] - ls[1][0]) < 1e-3:
-          judge = False                     # a numerical tie between the clusters: assignment not judged
+        if abs(ls[0][0] - ls[1][0]) < 1e-3 and not (case.get('pattern') == 'tie' and t == 0):
+          judge = False                     # a numerical near-tie between the clusters: assignment not judged
           break
-        k = 0 if ls[0][0] < ls[1][0] else 1
+        k = 0 if ls[0][0] <= ls[1][0] else 1   # an exact tie (identical cluster params): the first cluster wins
         if o['cluster_ids'][ci] != k:
           add('hyp-cluster.algorithm.assignment', f'round {t + 1} (maximization batch {entry["geo"]}): client {ci} assigned to cluster {o["cluster_ids"][ci]}, average losses incl. regulariser {[v[0] for v in ls]}')
         if rows:
@@ -661,7 +718,7 @@ def _oracle_hyp(case, obs):
         w = np.array(case['w'] if k == 1 else case['w2'], np.float64) / 4
         b = (case['b'] if k == 1 else case['b2']) / 4
         X = np.array([case['x'][i] for i in r], np.float64) / 4
-        Y = np.array([case['y'][i] for i in r], np.float64) / 4
+        Y = np.array([_yq(case['y'][i]) for i in r], np.float64)
         e = X @ w + b - Y
         want.append((float((e * e).mean() + lam * (w @ w + b * b)), float((X @ w + b).mean())))
       got = o['losses'][ci]
@@ -704,6 +761,8 @@ def _run_lowp(case):
 
 
 def run(case):
+  if case.get('kind') == 'flags':
+    return _run_flags(case)
   if case.get('kind') == 'hyp':
     return _run_hyp(case)
   if case.get('kind') == 'lowp':
@@ -803,9 +862,9 @@ def run(case):
 
 def _closed(case, which=1):
   w = np.array(case['w'] if which == 1 else case['w2'], np.float64) / 4
-  b = (case['b'] if which == 1 else case['b2']) / 4
-  X = np.array(case['x'], np.float64).reshape(-1, 2) / 4
-  Y = np.array(case['y'], np.float64) / 4
+  b = (case['b'] if which == 1 else case['b2']) * _u(case)
+  X = np.array(case['x'], np.float64).reshape(-1, 2) * _u(case)
+  Y = np.array([_yq(v, _u(case)) for v in case['y']], np.float64)
   e = X @ w + b - Y
   loss = e * e
   G = np.stack([2 * e * X[:, 0], 2 * e * X[:, 1], 2 * e], axis=1) if len(Y) else np.zeros((0, 3))
@@ -813,8 +872,18 @@ def _closed(case, which=1):
   return loss, G, r, np.array(dr)
 
 
+def _yq(v, u=0.25):
+  return float(v) if isinstance(v, str) else v * u
+
+
 def _near(a, b):
-  return math.isfinite(a) and abs(a - b) <= TOL * (1 + abs(b))
+  """Equal within tolerance; a non-finite expected value must be reproduced exactly (NaN by NaN, +-inf by itself)."""
+  b = float(b)
+  if math.isnan(b):
+    return math.isnan(a)
+  if math.isinf(b):
+    return a == b
+  return math.isfinite(a) and abs(a - b) <= TOL * (_TOLSCALE[0] + abs(b))
 
 
 def _mean_rows(vals, rows, zero):
@@ -822,6 +891,8 @@ def _mean_rows(vals, rows, zero):
 
 
 def oracle(case, obs):
+  if case.get('kind') == 'flags':
+    return [(k, f'under {case["env"]}: {w} (case {json.dumps(c)[:300]})') for k, w, c in obs['violations']]
   if case.get('kind') == 'hyp':
     return _oracle_hyp(case, obs)
   if case.get('kind') == 'lowp':
@@ -831,6 +902,7 @@ def oracle(case, obs):
   if case.get('kind') == 'algo':
     return _oracle_algo(case, obs)
   out = []
+  _TOLSCALE[0] = min(1.0, 4.0 ** case.get('scale', 0))     # tiny data scales: the absolute part of the tolerance shrinks with them
   loss, G, r, dr = _closed(case)
   n = len(loss)
   z3 = np.zeros(3)
@@ -856,7 +928,7 @@ def oracle(case, obs):
       if not all(_near(a, b) for a, b in zip(gv, want)):
         add('grad.all-padded' if not real else 'grad.closed-form',
             f'{tag} batch {k}: grad {gv}, unpadded closed form {want.tolist()}')
-      if not all(math.isfinite(a) for a in gv):
+      if not all(math.isfinite(a) for a in gv) and all(math.isfinite(b) for b in want):
         add('grad.nan', f'{tag} batch {k}: non-finite gradient {gv}')
     for k, gu in enumerate(g['grad_unpadded']):
       if gu is not None and not all(_near(a, b) for a, b in zip(g['grad'][k], gu)):
@@ -865,7 +937,7 @@ def oracle(case, obs):
       add('model_grad.differs-from-grad', f'{tag}: model_grad {g["mgrad"]} != grad {g["grad"][0]}')
     # average loss
     for name, v in zip(('evaluate_average_loss', 'evaluator.global', 'evaluator.per-client'), g['avg']):
-      if not math.isfinite(v):
+      if not math.isfinite(v) and math.isfinite(exp_avg):
         add('avg-loss.nan', f'{tag}: {name} = {v} on {n} rows')
       elif not _near(v, exp_avg):
         add('avg-loss.empty' if n == 0 else f'avg-loss.closed-form.{name}', f'{tag}: {name} = {v}, closed form {exp_avg}')
@@ -931,8 +1003,8 @@ def oracle(case, obs):
 
 def _exact(case):
   """Exact per-row (loss, g1, g2, g3) for real rows; function for padded rows; r and grad r."""
-  w = [_q(v) for v in case['w']]
-  b = _q(case['b'])
+  w = [Fraction(int(v), 4) for v in case['w']]
+  b = _q(case['b'], case)
 
   def row(x1, x2, y):
     e = w[0] * x1 + w[1] * x2 + b - y
@@ -941,7 +1013,7 @@ def _exact(case):
     r, dr = _reg_terms(case['reg'], [w[0], w[1], b], Fraction)
   else:
     r, dr = None, [None] * 3
-  real = [row(_q(x[0]), _q(x[1]), _q(y)) for x, y in zip(case['x'], case['y'])]
+  real = [row(_q(x[0], case), _q(x[1], case), _q(y, case)) for x, y in zip(case['x'], case['y'])]
   return real, row, r, dr
 
 
@@ -950,7 +1022,7 @@ def _oq(v):
 
 
 def _cell_vals(case, real, row, cells, coord):
-  return [row(_q(c[0]), _q(c[1]), _q(c[2]))[coord] if isinstance(c, list) else real[c][coord] for c in cells]
+  return [row(_q(c[0], case), _q(c[1], case), _q(c[2], case))[coord] if isinstance(c, list) else real[c][coord] for c in cells]
 
 
 def _mask(cells):
@@ -958,6 +1030,10 @@ def _mask(cells):
 
 
 def encode(case, obs):
+  if case.get('kind') == 'flags':
+    return None
+  if case.get('nonfinite'):
+    return None     # the Coq model is over finite rationals; these cases are judged by the oracle
   if case.get('kind') == 'hyp':
     return None
   if case.get('kind') == 'lowp':
@@ -1008,6 +1084,8 @@ def encode(case, obs):
 
 
 def nontrivial(case, obs):
+  if case.get('kind') == 'flags':
+    return obs.get('ran', 0) > 0
   if case.get('kind') in ('algo', 'lowp', 'hyp'):
     return True
   for g in obs['geos']:
@@ -1018,6 +1096,8 @@ def nontrivial(case, obs):
 
 
 def describe(case, obs):
+  if case.get('kind') == 'flags':
+    return {'flags': json.dumps(case['env']), 'flag_cases_ran': obs.get('ran', 0)}
   if case.get('kind') == 'hyp':
     return {'hyp_order': '-'.join(case['order'])}
   if case.get('kind') == 'lowp':
@@ -1033,6 +1113,8 @@ def describe(case, obs):
 
 
 def shrink(case):
+  if case.get('kind') == 'flags':
+    return
   if case.get('kind') in ('lowp', 'hyp'):
     return
   if case.get('kind') == 'algo':
